@@ -141,7 +141,7 @@ D5(b) ==
            U(b, Itu5, "eta_hour_utc"),
            OptNot("eta_minute_utc", "C04", R(b, Itu5, "eta_minute_utc"), 60),
            Flt("draught", R(b, Itu5, "draught"), 100000, 1),
-           [Text(b, "destination", 302, destChars) EXCEPT !.prop = IF destChars = 20 THEN "C13" ELSE "C14"],
+           [Text(b, "destination", 302, destChars) EXCEPT !.prop = IF destChars = 20 THEN "C13" ELSE "C13C14"],
            \* DTE: bit 422 when present; missing -> not ready.  When a truncated message leaves
            \* a few bits after the last whole destination character, reading the next bit (as the
            \* code does, pinned by test_type5_truncated) or defaulting are both accepted (unspecified).
@@ -390,6 +390,8 @@ FieldViol(d, obs, known) ==
                              \* the 'offset 0 = not available' rule of C11 is contradicted as well
                              \cup (IF StationCounts(obs) \in {StationCounts(x) : x \in d.vals}
                                    THEN {<<"C11", d.name, "slot offset presence">>} ELSE {})
+              \* a truncated text field: the characters present (C14) decoded character by character (C13)
+              ELSE IF d.prop = "C13C14" THEN {<<"C13", d.name, "value">>, <<"C14", d.name, "value">>}
               ELSE {<<d.prop, d.name, "value">>}
     ELSE IF d.kind = "f"
     THEN IF IsInt(obs) /\ Close(obs, d.raw, d.P, d.Q) THEN {} ELSE {<<"C10", d.name, "value">>}
